@@ -210,7 +210,7 @@ class ConcatWorld:
         out = {}
         for h, ws in self.ws.items():
             if ws is not None and ws._geoh5:  # pylint: disable=protected-access
-                raw = rawgeoh5.read(ws.geoh5)
+                raw = rawgeoh5.read(ws.geoh5, kinds=("Groups",), types=False)
                 out[h] = (raw, rawgeoh5.digests(raw))
         return out
 
@@ -533,7 +533,9 @@ class ConcatScenario(BaseScenario):
     def apply(self, w: ConcatWorld, op):
         sim = w.sim
         kind = op["k"]
-        before = w.raw_digest() if kind in self.MUT or kind in ("rm_protected", "table", "gc") else None
+        judged = kind in self.MUT or kind in ("rm_protected", "table", "gc")
+        before = (getattr(w, "_cache", None) or w.raw_digest()) if judged else None
+        w._cache = None
         w.touched = set()
         w.created_groups = set()
         sim.begin_op(op["sub"])
@@ -559,11 +561,13 @@ class ConcatScenario(BaseScenario):
             for h in after:
                 w.raw_rules(after[h][0], h, f"{kind}:after op", closed=False)
             w.judge_rows(before, after, w.touched if outcome == "ok" else set(), f"{kind}:{outcome}", w.created_groups)
+            w._cache = after
         if not w.suspect and kind in self.MUT:
             w.check_all(f"{kind}:after op")
         if sim.gc_mode == "op" and random.Random(H(op["sub"], "gcop")).random() < sim.gc_density:
             sim.collect("op")
             w.check_gc()
+            w._cache = None
         return outcome
 
     # ---- creation
